@@ -515,6 +515,15 @@ theorem call_lstep_b (st st' : NState) (rnd : Option Nat) (op : NodeOp) (res : O
     simp only [applyOp] at h
     cases h
     exact LStepB.of_fields hinv' rfl rfl rfl rfl
+  | onEntriesFetched to term aggr =>
+    rcases CV.onEntriesFetched_ok h with h | ⟨-, hld, -, raft, hx, h⟩
+    · cases h; exact LStepB.of_fields hinv' rfl rfl rfl rfl
+    · cases h
+      rcases hx with hx | hx
+      · have hvf := Res.Post.of_eq (CV.sendAppendAggressively_vf _ _) hx
+        exact LStepB.of_sl hinv' hcl' (.inr ⟨hld, sendAppendAggressively_l hx (L.rfl hld)⟩) hvf.term hvf.state
+      · have hvf := Res.Post.of_eq (CV.sendAppend_vf _ _) hx
+        exact LStepB.of_sl hinv' hcl' (.inr ⟨hld, sendAppend_l hx (L.rfl hld)⟩) hvf.term hvf.state
 
 
 /-! ### role and term transitions of one call, without any proviso -/
@@ -700,6 +709,15 @@ theorem call_rt (st st' : NState) (rnd : Option Nat) (op : NodeOp) (res : OpRes)
     simp only [applyOp] at h
     cases h
     exact RT.rfl.ts rfl rfl
+  | onEntriesFetched to term aggr =>
+    rcases CV.onEntriesFetched_ok h with h | ⟨-, -, -, raft, hx, h⟩
+    · cases h; exact RT.rfl.ts rfl rfl
+    · cases h
+      rcases hx with hx | hx
+      · have hvf := Res.Post.of_eq (CV.sendAppendAggressively_vf _ _) hx
+        exact RT.rfl.ts hvf.term hvf.state
+      · have hvf := Res.Post.of_eq (CV.sendAppend_vf _ _) hx
+        exact RT.rfl.ts hvf.term hvf.state
 
 end Bt
 end Raft
